@@ -926,24 +926,24 @@ Section IRSubs.
     assert (HK : forall v' data' vs', dec_subs t d z rest data' chosen = Some (vs', []) ->
                  wf_subs t w rest vs' chosen 0 -> byte_list data' ->
                  sim tl data' (pre ++ v' :: map (zslot z) rest) (pre ++ v' :: vs')).
-    { intros v' data' vs' H' Hw' Hb'. rewrite !(app_cons_assoc pre v').
+    { intros v' data' vs' H' Hw' Hb'. rewrite (app_cons_assoc pre v' (map (zslot z) rest)), (app_cons_assoc pre v' vs').
       apply (K data' chosen vs' (pre ++ [v']) (cl_tail _ _ _ Hcl) H' Hw' Hb').
       rewrite app_length. cbn [length]. lia. }
     destruct (dec_subs_next t d z w Hframe _ _ _ _ _ Hcl Hz H Hw) as [(s' & v' & r' & Hin & Hdv)|(-> & _ & Hall)];
       [|exfalso; apply Hnot; [reflexivity|exact Hall]].
     pose proof (d_announces t d Hframe _ _ _ _ (s_tid s) Hdv Hb) as Han.
-    cbn [dec_subs] in H. rewrite Ar, Han in H. cbn [wf_subs] in Hw.
+    cbn [dec_subs] in H. rewrite Ar, Han in H.
     destruct Hin as [<-|Hin].
     - rewrite N.eqb_refl, Hdv in H.
       destruct (dec_subs t d z rest r' chosen) as [[vs' r'']|] eqn:E; [|discriminate]. injection H as <- ->.
-      rewrite Ar in Hw. destruct Hw as (_ & _ & Hwv & Hw).
+      cbn [wf_subs] in Hw. rewrite Ar in Hw. destruct Hw as (_ & _ & Hwv & Hw).
       unfold sim.
       rewrite (single_taken s i data v' r' pre (VOpt None) (map (zslot z) rest) tl (conj Hdv (conj Hwv Hb)) Hi)
         by (intros X; rewrite Ar in X; discriminate X).
       unfold upd. rewrite Ar. apply HK; try assumption. eapply d_rest_bytes; eauto using Hframe.
     - replace (s_tid s =? s_tid s') with false in H by (symmetry; apply N.eqb_neq; apply Hne; exact Hin).
       destruct (dec_subs t d z rest data chosen) as [[vs' r'']|] eqn:E; [|discriminate]. injection H as <- ->.
-      rewrite Ar in Hw. destruct Hw as (_ & Hw).
+      cbn [wf_subs] in Hw. rewrite Ar in Hw. destruct Hw as (_ & Hw).
       unfold sim. rewrite (single_skipped s i data _ tl rest s' v' r' Ho Hin Hdv Hb (Hne _ Hin) Hok Hc).
       apply HK; assumption.
   Qed.
@@ -997,7 +997,7 @@ Section IRSubs.
     destruct (singles_of_cons s [] i known) as (k2 & ->). cbn [fst singles_of]. rewrite app_nil_r, <- app_assoc.
     unfold sim. rewrite (mand_single s i known data v data' pre (zslot z s) _ _ Ho (conj E2 (conj E3 Hb)) Hi)
       by (intros X; rewrite Ar in X; discriminate X).
-    unfold upd. rewrite Ar. rewrite !(app_cons_assoc pre v).
+    unfold upd. rewrite Ar. rewrite (app_cons_assoc pre v (map (zslot z) rest)), (app_cons_assoc pre v vs2).
     apply (K data' (s_group s) vs2 (pre ++ [v]) E7 E5 E6 (d_rest_bytes t d Hframe _ _ _ _ E2 Hb)).
     rewrite app_length. cbn [length]. lia.
   Qed.
@@ -1024,8 +1024,10 @@ Section IRSubs.
     change (dbind (exec_hdr (run_hdr run true) data) _) with
       (group_body (run_hdr run true) (cases_of t sd (run_hsl run true) run i) (run_hsl run true) data
                   (pre ++ map (zslot z) (run ++ rest)) DErr (fun d' sl => DOk (Next d' sl))).
-    rewrite E1 at 4. rewrite map_app, <- app_assoc, map_app. cbn [map]. rewrite <- !app_assoc. cbn [app].
-    rewrite (app_assoc pre (map (zslot z) a)).
+    assert (Es : pre ++ map (zslot z) (run ++ rest) =
+                 (pre ++ map (zslot z) a) ++ zslot z s :: map (zslot z) b ++ map (zslot z) rest).
+    { rewrite E1, !map_app. cbn [map]. rewrite <- !app_assoc. cbn [app]. reflexivity. }
+    rewrite Es.
     destruct (group_step run a s b true i data v data' (pre ++ map (zslot z) a) (zslot z s)
                 (map (zslot z) b ++ map (zslot z) rest) DErr (fun d' sl => DOk (Next d' sl))
                 E1 (Hdist _ _ _ E1) (conj E2 (conj E3 Hb))) as [Eg _].
@@ -1039,7 +1041,7 @@ Section IRSubs.
       with ((pre ++ map (zslot z) a ++ v :: map (zslot z) b) ++ vs2)
       by (rewrite <- !app_assoc; cbn [app]; reflexivity).
     apply (K data' g vs2 _ E7 E5 E6 (d_rest_bytes t d Hframe _ _ _ _ E2 Hb)).
-    rewrite E1, !app_length. cbn [length]. rewrite !app_length, !map_length. cbn [length]. lia.
+    rewrite E1. repeat (first [rewrite app_length | rewrite map_length | progress cbn [length]]). lia.
   Qed.
 
   (* a loop group *)
@@ -1073,3 +1075,118 @@ Section IRSubs.
     apply (K data' chosen vs2 (pre ++ vs1) (cl_app_r _ _ _ Hcl) H2 Hw2 Hb2).
     rewrite app_length. lia.
   Qed.
+
+  (* ---- all sub-parameters of a container ---- *)
+  Fixpoint runs_ok (fuel : nat) (subs : list sub) : bool :=
+    match fuel, subs with
+    | S fk, s :: r =>
+      let '(run0, rest) := take_run s r in
+      (if s_optional s || s_repeat s then hdr_ok (s :: run0) rest else true) && runs_ok fk rest
+    | _, _ => true
+    end.
+
+  Lemma key_arity s s' : same_key s s' = true ->
+    s_arity s' = s_arity s /\ (s_arity s = One -> s_group s' = s_group s).
+  Proof.
+    intros H. destruct (same_key_parts _ _ H) as (H1 & H2 & H3). unfold s_optional, s_repeat in *.
+    split; [|intros _; symmetry; exact H3].
+    destruct (s_arity s), (s_arity s'); try reflexivity; try discriminate; cbn in *;
+      try (destruct (s_req s); discriminate); try (destruct (s_req s'); discriminate).
+  Qed.
+
+  Lemma all_optional s run0 rest : pre_cond s rest = true -> (forall s', In s' run0 -> same_key s s' = true) ->
+    forallb s_optional (s :: run0 ++ rest) = true.
+  Proof.
+    unfold pre_cond. intros H Hk. apply andb_true_iff in H as [H1 H2]. apply negb_true_iff in H2.
+    cbn [forallb]. rewrite H1. cbn [andb]. rewrite forallb_app. apply andb_true_iff. split.
+    - apply forallb_forall. intros s' Hs'. destruct (same_key_parts _ _ (Hk s' Hs')) as (E & _). rewrite <- E. exact H1.
+    - apply forallb_forall. intros s' Hs'. destruct (s_optional s') eqn:O; [reflexivity|].
+      assert (X : existsb (fun s'0 => negb (s_optional s'0)) rest = true).
+      { apply existsb_exists. exists s'. split; [exact Hs'|]. rewrite O. reflexivity. }
+      congruence.
+  Qed.
+
+  Theorem subs_sim : forall fuel subs i known data chosen vs pre,
+    (length subs <= fuel)%nat -> wf_sub_order subs = true -> groups_ok subs = true ->
+    (forall s, In s subs -> exists c', find_container t false (s_tid s) = Some c') -> zalt_ok z w subs ->
+    runs_ok fuel subs = true -> cl chosen subs ->
+    dec_subs t d z subs data chosen = Some (vs, []) -> wf_subs t w subs vs chosen 0 -> byte_list data ->
+    i = N.of_nat (length pre) ->
+    sim (compile_dsubs t sd fuel subs i known) data (pre ++ map (zslot z) subs) (pre ++ vs).
+  Proof.
+    induction fuel as [|fk IH]; intros subs i known data chosen vs pre Hlen Ho Hgo Hc Hz Hrk Hcl H Hw Hb Hi.
+    - destruct subs; [|cbn in Hlen; lia]. cbn in H. injection H as <- ->.
+      exists (Next [] (pre ++ [])). split; [reflexivity|]. right. reflexivity.
+    - destruct subs as [|s r0].
+      { cbn in H. injection H as <- ->. exists (Next [] (pre ++ [])). split; [reflexivity|]. right. reflexivity. }
+      destruct (take_run s r0) as [run0 rest] eqn:Ht.
+      destruct (take_run_spec s r0 run0 rest Ht) as (-> & Hkey & Hmax).
+      destruct (compile_dsubs_cons fk s (run0 ++ rest) i known run0 rest Ht) as (k' & ->).
+      cbn [runs_ok] in Hrk. rewrite Ht in Hrk. apply andb_true_iff in Hrk as [Hhdr Hrk].
+      change (s :: run0 ++ rest) with ((s :: run0) ++ rest) in *.
+      set (run := s :: run0) in *.
+      assert (Hin_run : forall s', In s' run -> s' = s \/ same_key s s' = true).
+      { intros s' [<-|Hs']; [now left|right; apply Hkey, Hs']. }
+      (* the continuation: the induction hypothesis on what follows the run *)
+      assert (K : Kont rest (i + N.of_nat (length run)) (compile_dsubs t sd fk rest (i + N.of_nat (length run)) k')).
+      { intros data' chosen' vs2 pre' Hcl' H' Hw' Hb' Hi'. apply (IH rest _ _ data' chosen' vs2 pre'); try assumption.
+        - rewrite app_length in Hlen. unfold run in Hlen. cbn [length] in Hlen. lia.
+        - apply (order_app_r run), Ho.
+        - apply (groups_app_r run), Hgo.
+        - intros s0 H0. apply Hc. apply in_or_app. now right.
+        - apply (zalt_app_r z w run), Hz. }
+      apply pre_stmt.
+      { (* `return nil` on an empty slice: everything that remains is optional *)
+        intros HP -> . f_equal.
+        destruct (dec_subs_empty t d z (run ++ rest) (all_optional s run0 rest HP Hkey) _ _ _ H) as [-> _]. reflexivity. }
+      intros Hne0.
+      assert (Hne_run : run <> []) by discriminate.
+      destruct (s_arity s) eqn:Ar.
+      + (* exactly one *)
+        assert (Hrun1 : forall s', In s' run -> s_arity s' = One /\ s_group s' = s_group s).
+        { intros s' Hs'. destruct (Hin_run s' Hs') as [->|Hk]; [split; [exact Ar|reflexivity]|].
+          destruct (key_arity _ _ Hk) as [E1 E2]. split; [congruence|apply E2, Ar]. }
+        unfold is_single_run, s_repeat, s_optional. rewrite Ar. cbn [negb andb orb].
+        destruct (s_group s =? 0) eqn:G; [rewrite orb_true_r|rewrite orb_false_r].
+        * apply (singles_one0 rest _ run i known data chosen vs pre); try assumption.
+          intros s' Hs'. destruct (Hrun1 s' Hs') as [E1 E2]. split; [exact E1|]. rewrite E2. exact G.
+        * assert (Hg : s_group s <> 0) by (apply N.eqb_neq; exact G).
+          pose proof (not_in_group_after s rest (s_group s) Ar eq_refl Hmax) as Hr.
+          destruct (length run =? 1)%nat eqn:L1.
+          -- assert (E0 : run0 = []).
+             { unfold run in L1. cbn [length] in L1. apply Nat.eqb_eq in L1. destruct run0; [reflexivity|cbn in L1; lia]. }
+             unfold run in *. rewrite E0 in *. cbn [app] in *.
+             apply (single_alt rest _ s i known data chosen vs pre); try assumption.
+          -- apply (group_excl run rest _ i data chosen vs pre (s_group s)); try assumption.
+      + (* optional *)
+        assert (Hrun1 : forall s', In s' run -> s_arity s' = Opt \/ s_arity s' = Many).
+        { intros s' Hs'. left. destruct (Hin_run s' Hs') as [->|Hk]; [exact Ar|].
+          destruct (key_arity _ _ Hk) as [E1 _]. congruence. }
+        unfold is_single_run, s_repeat, s_optional in *. rewrite Ar in *. cbn [negb andb orb] in *.
+        rewrite andb_false_r, orb_false_r.
+        destruct (length run =? 1)%nat eqn:L1.
+        * assert (E0 : run0 = []).
+          { unfold run in L1. cbn [length] in L1. apply Nat.eqb_eq in L1. destruct run0; [reflexivity|cbn in L1; lia]. }
+          unfold run in *. rewrite E0 in *. cbn [app] in *.
+          assert (Hll : forall s0, In s0 [s] -> ll1 s0).
+          { intros s0 [<-|[]] X. rewrite Ar in X. discriminate X. }
+          destruct (order_run [s] rest Ho Hll) as [_ Hdr].
+          apply (single_opt rest _ s i known data chosen vs pre); try assumption.
+          -- intros s' Hs'. apply Hdr; [now left|exact Hs'].
+          -- apply Hc. now left.
+          -- intros -> Hall. apply Hne0; [|reflexivity]. unfold pre_cond.
+             assert (Os : s_optional s = true) by (unfold s_optional; rewrite Ar; reflexivity). rewrite Os. cbn [andb].
+             cbn [forallb] in Hall. apply andb_true_iff in Hall as [_ Hall]. apply negb_true_iff.
+             destruct (existsb (fun s' => negb (s_optional s')) rest) eqn:X; [|reflexivity].
+             apply existsb_exists in X as (s' & Hs' & Hn). rewrite forallb_forall in Hall.
+             rewrite (Hall s' Hs') in Hn. discriminate Hn.
+        * apply (group_loop run rest _ i data chosen vs pre); try assumption.
+      + (* repeatable *)
+        assert (Hrun1 : forall s', In s' run -> s_arity s' = Opt \/ s_arity s' = Many).
+        { intros s' Hs'. right. destruct (Hin_run s' Hs') as [->|Hk]; [exact Ar|].
+          destruct (key_arity _ _ Hk) as [E1 _]. congruence. }
+        unfold is_single_run, s_repeat, s_optional in *. rewrite Ar in *. cbn [negb andb orb] in *.
+        rewrite orb_true_r in *. cbn [negb].
+        apply (group_loop run rest _ i data chosen vs pre); try assumption.
+  Qed.
+End IRSubs.
